@@ -65,7 +65,7 @@ def static_part(chk, facts, objs):
         if p["name"] not in names:
             chk.failure({"site": p["name"], "condition": "declared-not-defined"}, {"prototype": p})
     for nm, w in sorted(facts["dangling"].items()):
-        fam = "get_representation" if GETTER.search(nm) else "other"
+        fam = "get_representation" if GETTER.search(nm) else "linear_partition" if nm.endswith("_linear_partition") else "other"
         chk.failure({"site_family": fam, "condition": "address-of-temporary-returned"}, {"entry": nm, "compiler": w})
     regs = {e["name"]: e.get("static_objs", []) for e in entries if e["name"] in ("ppl_set_timeout", "ppl_set_deterministic_timeout")}
     want = {"ppl_set_timeout": ["timeout_exception"], "ppl_set_deterministic_timeout": ["deterministic_timeout_exception"]}
@@ -97,7 +97,7 @@ def build_driver(chk, top, gen, libdir, dom, cpp, facts, allmap):
     key = hashlib.sha256(("".join(srcs)).encode() + support).hexdigest()[:12]
     ddir = os.path.join(top, "drv-" + os.path.basename(libdir))
     for old in glob.glob(os.path.join(top, "drv-*")):
-        if old != ddir:
+        if old != ddir and T._stale(old):
             shutil.rmtree(old, ignore_errors=True)
     os.makedirs(ddir, exist_ok=True)
     exe = os.path.join(ddir, "drv_%s_%s" % (dom, key))
@@ -112,7 +112,7 @@ def build_driver(chk, top, gen, libdir, dom, cpp, facts, allmap):
             return f[:-3] + ".o"
         with cf.ThreadPoolExecutor(N) as ex:
             os_ = list(ex.map(one, range(N)))
-        objs, _ = T.build_objects(top, gen, libdir, ["implementation_common", dom], chk.log)
+        objs, _ = T.build_objects(top, gen, libdir, sorted({"implementation_common", dom, "Polyhedron"}), chk.log)
         for attempt in range(4):      # the library cache may be evicted by a concurrent run on another tree: rebuild + retry
             libdir2 = common.build_lib("mpz")
             rc, out = common.sh(["g++"] + os_ + objs + [os.path.join(libdir2, "libppl_verif.a"), "-lgmpxx", "-lgmp", "-o", exe + ".tmp"], timeout=1800)
@@ -196,12 +196,13 @@ def model_eval(chk, facts, obs):
 
 
 def judge_lines(chk, facts, dom, lines, stats):
-    T_, O_ = {}, []
+    T_, O_, T_all = {}, [], []
     obs = []
     for ln in lines:
         f = ln.rstrip("\n").split("|")
         if f[0] == "T" and len(f) >= 13:
             T_[(f[1], f[2])] = f
+            T_all.append(f)
             if f[3] != "ret":
                 obs.append((f[1], f[3]))
         elif f[0] == "O" and len(f) >= 13:
@@ -221,7 +222,7 @@ def judge_lines(chk, facts, dom, lines, stats):
     model = model_eval(chk, facts, obs) if obs else {}
     def seen(f):
         return [int(x) for x in f[6].split(",") if x]
-    for key, f in T_.items():
+    for f in T_all:
         entry, variant, m, mv, r = f[1], f[2], f[3], int(f[4]), int(f[5])
         stats["cases"] += 1
         info = None
@@ -298,6 +299,9 @@ def run(chk):
     libdir = common.build_lib("mpz", log=chk.log)
     top, gen, doms, facts = T.collect(chk.log, libdir)
     objs, dangling = T.build_objects(top, gen, libdir, ["implementation_common"] + doms, chk.log)
+    for e in facts["entries"]:       # syntactic fact: `*out = ... &local ...` (the compiler misses it behind reinterpret_cast)
+        if e.get("addr_of_local"):
+            dangling.setdefault(e["name"], "address of local %s stored in *%s" % (e["addr_of_local"][0][1], e["addr_of_local"][0][0]))
     facts["dangling"] = dangling
     nchains = T.write_coq(facts, os.path.join(common.COQ, "gen", "Facts_CIface.v"))
     chk.log("facts: %d entry points, %d prototypes, %d domains, %d catch chains, %d dangling outputs" %
